@@ -152,7 +152,7 @@ def run(ctx):
                where=f_solve.where, construct="core arguments", loc=f_solve.loc())
 
     # ================================================================= Part B: core routine
-    def part_b(A, b, label, only=None):
+    def part_b(A, b, label, only=None, two_cycle=False):
         N = 2
 
         def core_run(decide, maxit=N):
@@ -203,12 +203,50 @@ def run(ctx):
                 return U, R
 
             def s_tri(it, R0, R1, R2, R3, b0, b1, b2, b3, tol=1e-14, rec=rec):
+                # the zero-diagonal threshold of the small triangular solve is an absolute constant of that routine; the GMRES
+                # tolerance (a relative residual bound chosen by the caller) must not be forwarded into it
+                okt = isinstance(tol, (int, float)) and not isinstance(tol, bool) and 0 <= tol <= 1e-12
+                ctx.ob("C04.D5.small-solve", f"core{label}: zero-diagonal threshold of the small triangular solve", okt,
+                       f"UtriangleQsparse is called with threshold {short(tol)} instead of its small absolute default: with a loose GMRES "
+                       f"tolerance and a small-scaled system every diagonal entry counts as zero and the back substitution is skipped",
+                       where=f_core.where, construct="small triangular solve: threshold argument", loc=f_core.loc())
                 k = len(rec["tri"])
                 ys = [sym_real(f"y{k}p{p}_", wrap(b0).shape) for p in range(4)]
                 rec["tri"].append(([wrap(x).copy() for x in (R0, R1, R2, R3)], [wrap(x).copy() for x in (b0, b1, b2, b3)], ys))
                 return tuple(ys)
 
             it, d = new_interp(ctx, chooser=chooser, summaries={"utils:Hess_QR_ggivens": s_qr, "utils:UtriangleQsparse": s_tri})
+
+            # every normalisation of a vector by a norm (the restart residual by beta, the new Krylov vector by the sub-diagonal entry
+            # h_{j+1,j} of each Arnoldi step) must come after a zero / breakdown test that mentions that very norm and was answered "not zero"
+            def mentions(x, key, depth=0):
+                if depth > 8:
+                    return False
+                if isinstance(x, tuple):
+                    return x == key or any(mentions(y, key, depth + 1) for y in x)
+                if isinstance(x, Poly):
+                    return any(mentions(a_, key, depth + 1) for a_ in x.atoms())
+                return False
+
+            class DivLog(list):
+                def append(self_, item):
+                    list.append(self_, item)
+                    bdiv = item[0]
+                    if not isinstance(bdiv, Poly) or not isinstance(getattr(d, "last_division_numerator", None), SymArr):
+                        return          # (only normalisations of a vector by its norm: r0 / beta, w / h_{j+1,j}, b / ||b||)
+                    sa = bdiv.as_single_atom()
+                    if sa is None or not (isinstance(sa[1], tuple) and sa[1] and sa[1][0] == "sqrt"):
+                        return
+                    guarded = any(k_ in ("zero_b", "zero_beta", "breakdown") and not r_ and
+                                  any(mentions(side, sa[1]) for side in (cond_parts(c_) or ())[1:])
+                                  for k_, i_, c_, r_ in rec["log"])
+                    if not guarded:
+                        ctx.ob("C04.D3.zero-divisor", f"core{label}: division at {item[2]}", False,
+                               "a norm (||b||, beta or the sub-diagonal Arnoldi entry h_{j+1,j}) is used as a divisor on a path where no zero / "
+                               "lucky-breakdown test of that norm has been evaluated (an exactly invariant Krylov space gives v/0 = NaN)",
+                               where=f_core.where, construct="division by an untested norm in the Krylov core", loc=item[2])
+                        raise ModelError("division by an untested norm (reported)")
+            d.divisions = DivLog()
             inst = Instance(c_g, dict(tol=TOL, max_iter=None, verbose=False, preconditioner="none"))
             args = planes_of(A) + planes_of(b) + [TOL, maxit]
             st, out = run_guarded(lambda: it.run(f_core, args, bound_self=inst))
@@ -278,9 +316,10 @@ def run(ctx):
         scenarios.append(("restart-then-exact", lambda kind, i: kind == "zero_beta" and i == 1, 1, None))
         # (a second full Arnoldi cycle on generic symbols is intractable - expression swell - and is not attempted; the restart
         #  carry is decided by the scenario above, the m = 2 Arnoldi recurrence by the breakdown / convergence scenarios' first column)
-        if ctx.thorough:
-            scenarios.append(("breakdown-after-restart", lambda kind, i: (kind == "breakdown" and i == 1), 2, None))
-            scenarios.pop()
+        # breakdown at the FIRST Arnoldi step of the second cycle (dimension m = 2, j = 0 < m - 1): run on a structured system only
+        # (two_cycle), where the expressions stay small; bd maps cycle index -> Arnoldi step of the breakdown
+        if two_cycle:
+            scenarios.append(("breakdown-after-restart", lambda kind, i: (kind == "breakdown" and i == 1), 2, {1: 0}))
         def one_scenario(ctx, scen, core_run=None):
             name, decide, cycles, bd = scen
             _scenario(ctx, name, decide, cycles, bd)
@@ -306,7 +345,7 @@ def run(ctx):
                 if not ok5:
                     break
                 m = c + 1
-                V, H, r0, beta, vnext, kcols = reference_cycle(x0, m, None, breakdown_at=bd)
+                V, H, r0, beta, vnext, kcols = reference_cycle(x0, m, None, breakdown_at=(bd.get(c) if isinstance(bd, dict) else bd))
                 Hs, U, R = rec["qr"][c]
                 # Hessenberg handed to the QR: stacked planes of the (kcols+1) x kcols matrix
                 rows = kcols + 1
@@ -372,6 +411,16 @@ def run(ctx):
         parallel(ctx, one_scenario, [sc for sc in scenarios if only is None or sc[0] in only])
 
     part_b(sym_quat("a", (2, 2)), sym_quat("b", (2, 1)), "")
+    # second cycle on a structured system (real upper-triangular A, generic quaternion b): bookkeeping of the m = 2 cycle - which
+    # Arnoldi step may declare a lucky breakdown, restart carry into a cycle that really iterates
+    A_s = sym_quat("a", (2, 2))
+    for i in range(2):
+        for j in range(2):
+            A_s[i, j] = SQ(A_s[i, j].w if j >= i else 0, 0, 0, 0)
+    b_s = sym_quat("b", (2, 1))
+    for i in range(2):
+        b_s[i, 0] = SQ(b_s[i, 0].w, b_s[i, 0].x, 0, 0)
+    part_b(A_s, b_s, " [real triangular A]", only=("breakdown-after-restart",), two_cycle=True)
 
     ctx.require_instances("C04.D1.residual", 5)
     ctx.require_instances("C04.D2.flag", 5)
